@@ -90,6 +90,9 @@ def held_mismatch(held, ro):
 
 def _read_all(ro):
     v = {'ro_slug': ro.ro_slug}
+    # accessors are read in no particular order by callers: the end time and the duration first, then the listing -
+    # what they answer must not depend on what was read (or merged) before
+    early = (ticks(ro.end_time), eighths(ro.duration))
     stories = ro.stories
     sv = []
     for s in stories:
@@ -100,6 +103,8 @@ def _read_all(ro):
     v['start'] = ticks(ro.start_time)
     v['stop'] = ticks(ro.end_time)
     v['duration'] = eighths(ro.duration)
+    if early != (v['stop'], v['duration']):
+        raise Unrepresentable(f'end_time/duration read before the story listing {early} differ from those read after it {(v["stop"], v["duration"])}')
     v['completed'] = bool(ro.completed)
     v['script'] = list(ro.script)
     v['body'] = body_view(ro.body)
@@ -411,15 +416,19 @@ def text_route(oc, docs, rng):
                                    impl=o, model=r['model']))
 
 
-def sources_route(oc):
+def sources_route(oc, view_of=None):
     """C17 through the other documented ways a running order comes about: read from an S3 object, and merged by a collection
     built from strings (with an encoding declaration the str no longer needs), from files and from S3 - script and body are
     those of the same documents added by hand (paragraphs running over several lines, non-ASCII text, CDATA)."""
     import warnings
     from . import impl, coll_family
     from mosromgr.mostypes import MosFile
+    view_of = view_of or text_view
     para = 'Good evening.\nThe headlines tonight:\n  caf\u00e9 owners \u00a320\ttabbed'
-    ro_plain = TJ.to_text(B.ro_doc([B.story('A', [B.p(para), B.item('a1'), B.p('(note\nover lines)')]), B.story('B', [B.p('second\r\nstory'.replace('\r', ''))])], message_id='1'))
+    ro_plain = TJ.to_text(B.ro_doc([B.story('A', [B.p(para), B.item('a1'), B.p('(note\nover lines)')], md=B.timing_md(duration='12.5')),
+                                    B.story('B', [B.p('second\r\nstory'.replace('\r', ''))], md=B.timing_md(text_time='3', media_time='4'))],
+                                   message_id='1', slug='M\u00e9t\u00e9o & Sp\u00e4tnachrichten', ed_start='2021-03-04T09:00:00'))
+    ro_plain = ro_plain.replace('<storySlug>slug of A</storySlug>', '<storySlug><![CDATA[Q&A \u00fcber <alles>]]></storySlug>')
     send = TJ.to_text(B.story_send('B', [B.p('Line one\nline two \u00e9'), B.item('b1'), B.p('  padded\n')], message_id='2',
                                    pre=[E('storyNum', text='1')], post=[B.timing_md(duration='5')]))
     for decl, enc in (('', 'utf-8'), ('<?xml version="1.0" encoding="ISO-8859-1"?>', 'iso-8859-1'), ('<?xml version="1.0" encoding="UTF-8"?>\n', 'utf-8')):
@@ -427,9 +436,9 @@ def sources_route(oc):
         with warnings.catch_warnings():
             warnings.simplefilter('ignore')
             ref_ro = impl.load(ro_plain)
-            ref_single = text_view(ref_ro)
+            ref_single = view_of(ref_ro)
             ref_ro += impl.load(send)
-            ref_merged = text_view(ref_ro)
+            ref_merged = view_of(ref_ro)
         got = {}
         # one document read from an S3 object / a file / bytes
         raw = ro_text.encode(enc)
@@ -439,7 +448,7 @@ def sources_route(oc):
             try:
                 with warnings.catch_warnings():
                     warnings.simplefilter('ignore')
-                    got[name] = (text_view(mk()), ref_single)
+                    got[name] = (view_of(mk()), ref_single)
             except Exception as e:  # noqa: BLE001
                 got[name] = ({'crash': impl.err_name(e)}, ref_single)
         # the two documents merged by a collection
@@ -448,7 +457,7 @@ def sources_route(oc):
             if o['err'] is None and o['run'] and o['run']['err'] is None:
                 with warnings.catch_warnings():
                     warnings.simplefilter('ignore')
-                    got['collection from ' + via] = (text_view(impl.load(TJ.to_text(o['run']['ro']))), ref_merged)
+                    got['collection from ' + via] = (view_of(impl.load(TJ.to_text(o['run']['ro']))), ref_merged)
             else:
                 got['collection from ' + via] = ({'crash': str(o['err'] or (o['run'] or {}).get('err'))}, ref_merged)
         for name, (view, ref) in got.items():
@@ -577,7 +586,7 @@ def evaluate(pid, tier, seed):
         for h in hists:
             for st in h['steps']:
                 if st.get('cls') == 'StorySend' and 'view' in st and 'view' in st['view'] and 'obs' in st \
-                        and st['obs']['err'] is None and not st['obs']['warns'] and not st.get('reused_object'):
+                        and st['obs']['err'] is None and not st['obs']['warns']:        # (a message object added again delivers the same body again)
                     exp = expected_send_body(TJ.parse(st['msg_text']))
                     if exp is None:
                         continue
@@ -632,6 +641,8 @@ def evaluate(pid, tier, seed):
         spaces_check(oc)
         text_route(oc, [(lbl, tree) for lbl, tree, _, _ in entries[:(400 if tier == 'quick' else 4000)]], rng)
         sources_route(oc)
+    if pid in ('C15', 'C16'):
+        sources_route(oc, view_of=read_view)
     if pid == 'C16':
         numbers_check(oc, seed)
     oc.rule = {
@@ -867,7 +878,7 @@ def replay_text(pid, fl):
 
 def replay_sources(pid, fl):
     oc = Outcome(pid)
-    sources_route(oc)
+    sources_route(oc, view_of=None if pid == 'C17' else read_view)
     if oc.failing:
         print(f'VIOLATION property={pid} replay=(this file): still fails on the current tree')
         return 1
